@@ -338,12 +338,17 @@ def run(ctx, spec):
         run_letters(ctx, spec)
     elif spec['mode'] == 'api':
         run_api(ctx, spec)
+        if spec.get('shard') is not None and not getattr(run, '_deep_done', False):
+            run._deep_done = True
+            objcheck.deep_table(ctx, 70000 if ctx.tier == 'quick' else 1100000)
     else:
         run_paste(ctx, spec)
 
 
 def replay(ctx, case):
     env.setup()
+    if 'deep_table' in case:
+        return objcheck.deep_table(ctx, case['deep_table'])
     if 'api_ops' in case:
         from ..session import Session
         from backends.libwayland_debug_output import parse
